@@ -2,6 +2,8 @@ import ClipVerif.Proofs.C12
 import ClipVerif.Facts.Tables
 import ClipVerif.Model.Scan
 import ClipVerif.Proofs.Scan
+import ClipVerif.Model.Minima
+import ClipVerif.Proofs.Minima
 /-
 C12 — an engine's answer depends only on the paths added.  Proved over the regenerated field table
 `Facts.fields`: the engine has exactly the fields classified below (a new field breaks this theorem
@@ -92,5 +94,41 @@ theorem popScanline_spec (l : List Int64) (h : Ascending l) (hne : l ≠ []) :
       Ascending rest ∧ (∀ z, z ∈ rest ↔ (z ∈ l ∧ z ≠ y)) := by
   exact Proofs.Scan.popScanline_spec l h hne
 
+/-! ### Local minima across executions (model `Model.Minima` of `baseAddPaths`' flag, `reset`,
+`clearSolutionOnly`'s scanline truncation and the outer loop of `executeInternal`; tied by
+`models-corr minima`, hook `VMinimaOps`) -/
+
+/-- whatever the history of `AddPaths` calls and executions on an engine, the list of local minima the next
+execution sweeps is the stable descending sort of everything added, in the order it was added: it does not
+depend on when earlier executions happened (the `isSortedMinimaList` flag is only an optimisation) -/
+theorem minima_history_independent (ops : List Model.Minima.Op) :
+    (Model.Minima.afterHistory ops).minima = Model.Minima.sortDesc (Model.Minima.added ops) := by
+  exact Proofs.Minima.history_independent ops
+
+theorem minima_sorted_after_reset (ops : List Model.Minima.Op) :
+    (Model.Minima.afterHistory ops).minima.Pairwise (fun a b => a.1 ≥ b.1) := by
+  exact Proofs.Minima.afterHistory_sorted ops
+
+/-- the execution starts from a scanline list that holds the y of every local minimum, ascending, and
+nothing left over from earlier executions -/
+theorem scanlines_after_reset (ops : List Model.Minima.Op) :
+    (Model.Minima.afterHistory ops).scan =
+        (Model.Minima.sortDesc (Model.Minima.added ops)).reverse.map (·.1) ∧
+      (Model.Minima.afterHistory ops).cur = 0 := by
+  exact Proofs.Minima.afterHistory_scan ops
+
+/-- the sweep's outer loop never meets local minima out of order or twice … -/
+theorem sweep_visits_prefix (extra : Int → List Int) (minima : List Model.Minima.LM)
+    (h : minima.Pairwise (fun a b => a.1 ≥ b.1)) (fuel : Nat) :
+    Model.Minima.sweep extra fuel minima 0 (minima.reverse.map (·.1)) <+: minima := by
+  exact Proofs.Minima.sweep_prefix extra minima h fuel
+
+/-- … and visits every one of them, whatever scanlines the sweep inserts on the way (`extra`; the popped
+scanline strictly decreases, so the y range of the local minima bounds the number of iterations) -/
+theorem sweep_visits_every_minimum (extra : Int → List Int) (m : Model.Minima.LM) (rest : List Model.Minima.LM)
+    (h : (m :: rest).Pairwise (fun a b => a.1 ≥ b.1)) (fuel : Nat)
+    (hf : (m.1 - ((m :: rest).getLast (by simp)).1).toNat + 1 ≤ fuel) :
+    Model.Minima.sweep extra fuel (m :: rest) 0 ((m :: rest).reverse.map (·.1)) = m :: rest := by
+  exact Proofs.Minima.sweep_visits_all extra m rest h fuel hf
 
 end C12
